@@ -15,6 +15,7 @@ CONSTANTS
     MaxTok,        \* subject names: up to MaxTok tokens ...
     Shapes,        \* ... plus these whole names (request shapes, reserved prefixes)
     InnerTokens,   \* inner names (one token or shape)
+    Kinds2,        \* leaf kinds enumerated over all names up to MaxTok tokens (the others: one token / shape)
     Views,         \* protocol views to check
     HLs            \* handler lists
 
@@ -31,8 +32,9 @@ MapOk(m) == Strip(m) = m
 
 Leaf(k, n)          == [k |-> k, n |-> n, ik |-> "none", m |-> "in"]
 Cont(k, n, ik, m)   == [k |-> k, n |-> n, ik |-> ik, m |-> m]
-Cases == {Leaf(k, n) : k \in {"file", "mbox"}, n \in Names}
-         \cup {Cont("dir", n, "file", "in") : n \in Names}
+NamesOf(k) == IF k \in Kinds2 THEN Names ELSE Names1
+Cases == {Leaf(k, n) : k \in {"file", "mbox"}, n \in Names1} \cup {Leaf(k, n) : k \in {"file", "mbox"} \cap Kinds2, n \in Names}
+         \cup {Cont("dir", n, "file", "in") : n \in NamesOf("dir")}
          \cup {Leaf("maildir", n) : n \in Names1}
          \cup {Cont(k, n, ik, m) : k \in {"dir", "zip"}, n \in Names1, ik \in {"file", "dir"}, m \in Inner}
          \cup {Cont("mapdir", n, ik, m) : n \in Names1, ik \in {"file", "dir"}, m \in {x \in Inner : MapOk(x)}}
